@@ -34,7 +34,8 @@ static io_buf_t g_iob;
 static uint8_t g_mem[4096 + 64];
 static atomic_uint g_ncb, g_started, g_fence, g_done_flag, g_stopped;
 static int g_in_start, g_rearm_cnt, g_destroyed;
-static atomic_uint g_cb_after_stop, g_ntimeout;
+static atomic_uint g_cb_after_stop, g_ntimeout, g_paused, g_cb_while_paused;
+static int g_paused_in_start;
 
 static uint64_t
 now_us(void) {
@@ -58,6 +59,8 @@ task_cb(tp_task_p tptask, int error, io_buf_p buf, uint32_t eof, size_t transfer
 	(void)udata;
 	if (0 != atomic_load(&g_stopped))
 		atomic_fetch_add(&g_cb_after_stop, 1);
+	if (0 != atomic_load(&g_paused))
+		atomic_fetch_add(&g_cb_while_paused, 1);
 	full = (NULL != buf && 0 == IO_BUF_TR_SIZE_GET(buf));
 	if (0 != error && ETIMEDOUT != error) {
 		tp_task_stop(tptask);
@@ -96,8 +99,19 @@ task_cb(tp_task_p tptask, int error, io_buf_p buf, uint32_t eof, size_t transfer
 			ret = TP_TASK_CB_NONE;
 			break;
 		case 3:
-			tp_task_enable(tptask, 0);
+			/* a disable that reports an error (injected epoll_ctl/timerfd fault) did not
+			 * disable anything: the caller reacts the way in-tree callers do, by stopping */
+			if (0 != tp_task_enable(tptask, 0))
+				tp_task_stop(tptask);
 			mark_stopped();
+			ret = TP_TASK_CB_NONE;
+			break;
+		case 4:
+			/* header: "All other return codes stop callback untill tp_task_enable(1) is called if
+			 * TP_F_DISPATCH flag was set" -- decline without stopping anything */
+			atomic_store(&g_paused, 1);
+			g_paused_in_start = g_in_start;
+			g_out->paused = 1;
 			ret = TP_TASK_CB_NONE;
 			break;
 		default:
@@ -182,6 +196,19 @@ fences(int k) {
 	return (hang);
 }
 static void
+resume_cb(tpt_p tpt, void *udata) {
+	(void)tpt; (void)udata;
+	g_out->cb_while_paused = atomic_load(&g_cb_while_paused);
+	atomic_store(&g_paused, 0);
+	/* a first transfer made inside tp_task_start_ex() that declined to continue left the task unscheduled:
+	 * it is (re)started; a task paused from a scheduled event is re-enabled */
+	if (g_paused_in_start)
+		g_out->resume_rc = tp_task_restart(g_task);
+	else
+		g_out->resume_rc = tp_task_enable(g_task, 1);
+	atomic_store(&g_done_flag, 1);
+}
+static void
 final_cb(tpt_p tpt, void *udata) {
 	/* owner thread: the task (if still alive) is destroyed here */
 	(void)tpt; (void)udata;
@@ -234,6 +261,8 @@ c16_run(const c16_scn *scn, c16_out *out) {
 	atomic_store(&g_stopped, 0);
 	atomic_store(&g_cb_after_stop, 0);
 	atomic_store(&g_ntimeout, 0);
+	atomic_store(&g_paused, 0);
+	atomic_store(&g_cb_while_paused, 0);
 	tp_harness_reset(&scn->plans);
 	g_close_unknown_passthrough = 1; /* tasks close descriptors their owner created */
 	tp_res_get(&rs0);
@@ -351,6 +380,18 @@ c16_run(const c16_scn *scn, c16_out *out) {
 	for (waited = 0; 0 == atomic_load(&g_stopped) && waited < 120; waited ++)
 		usleep(500);
 	out->run_us = now_us() - out->run_us;
+	if (0 != atomic_load(&g_paused)) {
+		/* the callback declined to continue: stay paused for longer than the timeout (if it is a short one),
+		 * while the peer's remaining data sits in the socket; nothing may be reported until the re-enable */
+		usleep((0 != scn->timeout_ms && scn->timeout_ms <= 500) ? 1600u * scn->timeout_ms : 4000u);
+		out->hang |= fences(2);
+		if (0 == tpt_msg_send(g_owner, NULL, 0, resume_cb, NULL)) {
+			out->hang |= tp_wait_until(&g_done_flag, 1, CEIL_MS);
+			atomic_store(&g_done_flag, 0);
+		}
+		for (waited = 0; 0 == atomic_load(&g_stopped) && waited < 120; waited ++)
+			usleep(500);
+	}
 	if (0 != scn->timeout_ms && scn->timeout_ms <= 500 && 0 == atomic_load(&g_stopped) && 0 == scn->end &&
 	    0 == scn->dir && 0 == scn->handler) {
 		/* an armed idle task must report its timeout: wait for it with a generous ceiling
